@@ -292,6 +292,9 @@ EXPR_FORMS = ["({v} if 1 == 1 else 0)", "{v} if 2 >= 1 else 7", "max({v}, 3)", "
               "[{v}, 5][0]" if False else "({v})", "abs(-{v})", "{v} * 1", "int({v}.0)"]
 
 
+TEXT_FORMS = ["a  b   c", "x, y=1", "  lead", "trail  ", "p (q)  r", "k=v,  w", "t #1  u", "a ,b", "m   =  n", "(  )"]
+
+
 def main() -> int:
     rep = Report(PROP)
     use_repo()
@@ -367,6 +370,24 @@ def main() -> int:
             if n_frac >= 8:
                 break
         rep.count("fractional_valued_shapes", n_frac)
+        # free-text parameters keep their text byte for byte: runs of blanks, commas, `=`, `#` and parentheses inside a string
+        # literal belong to the string, not to the call's layout (a splitter / normaliser working on the argument text must not touch them)
+        text_pnames = {pp for f2, (pp, cv) in sp["fields"].items() if cv in (str, "optstr") and pp in ("text", "top", "bottom", "label")}
+        n_text = 0
+        for args_text, pos, kw in all_shapes[:40]:
+            cands = [n for n in (pos + kw) if n in text_pnames and sp["values"][n].startswith('"')]
+            if not cands:
+                continue
+            pn = cands[n_text % len(cands)]
+            lit = TEXT_FORMS[(n_text + len(sp["name"])) % len(TEXT_FORMS)]
+            vals2 = dict(sp["values"])
+            vals2[pn] = '"' + lit + '"'
+            parts = [vals2[n] for n in pos] + [f"{n}={vals2[n]}" for n in kw]
+            extra.append((", ".join(parts), pos, kw, {pn: lit}))
+            n_text += 1
+            if n_text >= 10:
+                break
+        rep.count("layout_sensitive_text_shapes", n_text)
         rep.count("equal_text_shapes", n_same)
         rep.count("expression_valued_shapes", len(extra))
         for shape in [x + ({},) for x in all_shapes] + extra:
